@@ -232,6 +232,7 @@ def leg(run):
             [("census", 3000), ("censuslong", 400), ("mixed", 1500), ("settled", 500), ("collision", 500), ("delay", 300), ("wait", 300),
              ("selfexit", 400)])
     for k, (fam, n) in enumerate(plan):
+        n = run.scaled(n) if quick else n       # anchor drift: escalated budget
         done = 0
         while done < n:
             m = min(600, n - done)
